@@ -12,9 +12,68 @@ class C04(Prop):
             "process 2 runs with updating enabled (UPDATE_SNAPS=true or Update(true)) and a random subset of values changed "
             "(shorter, longer, empty, multi-line, terminator-like), process 3 replays read-only; the oracle checks: exactly the changed "
             "slots were rewritten to the new values, unchanged calls wrote nothing (mtime pinned), all other entries byte-identical "
-            "and in place, the read-only run passes silently with no write; non-trivial = at least one update happened")
+            "and in place, the read-only run passes silently with no write; non-trivial = at least one update happened. "
+            "Plus the file-format functions themselves (getPrevSnapshot / addNewSnapshot / updateSnapshot / escapeEndChars / unescapeEndChars on "
+            "a fresh copy of a file) against the model: thorough = EVERY file of <= 3 lines over 7 line tokens (blank, text, terminator, escape token, "
+            "two headers, padded terminator) with and without final newline x every value of <= 2 lines (41 800 triples, malformed files included); "
+            "quick = 3000 random triples over files of <= 6 lines")
     outside_model = "value formatting is input"
     trusted = []
+    fields = {"obs": ["outcome", "errors", "logs", "writes", "line"], "fs": "*", "counters": "*", "frame": "*"}
+    FRAME_TOKENS = [b"", b"a", b"---", b"/-/-/-/", b"[T - 1]", b"[U - 1]", b" ---", b"[T - 1] "]
+
+    def frame_cases(self, rng, tier):
+        """the file-format functions (getPrevSnapshot / addNewSnapshot / updateSnapshot / escape / unescape) on small files:
+        thorough = EVERY file of <= 3 lines over FRAME_TOKENS (with and without final newline) x every value of <= 2 lines;
+        quick = a random sample of files of <= 6 lines"""
+        import itertools
+        T = self.FRAME_TOKENS
+        triples = []
+        if tier == "thorough":
+            files = [b"\n".join(c) + e for k in range(0, 4) for c in itertools.product(T[:7], repeat=k) for e in (b"", b"\n")]
+            vals = [b"\n".join(c) for k in range(0, 3) for c in itertools.product(T[:7], repeat=k)]
+            triples = [(f, b"[T - 1]", v) for f in sorted(set(files)) for v in sorted(set(vals))]
+        else:
+            for _ in range(3000):
+                f = b"\n".join(rng.choice(T) for _ in range(rng.range(0, 6))) + rng.choice([b"", b"\n"])
+                if rng.chance(1, 3):      # a well-formed file
+                    f = b"".join(b"\n" + rng.choice([b"[T - 1]", b"[U - 1]", b"[T - 2]"]) + b"\n" + b"\n".join(rng.choice(T[:2] + T[3:]) for _ in range(rng.range(0, 3))) + b"\n---\n"
+                                 for _ in range(rng.range(0, 3)))
+                v = b"\n".join(rng.choice(T) for _ in range(rng.range(0, 3)))
+                triples.append((f, rng.choice([b"[T - 1]", b"[T - 1]", b"[U - 1]", b"[T - 2]"]), v))
+        cases = []
+        for k in range(0, len(triples), 200):
+            ops = [{"op": "frame", "doc": hx(f), "test": hx(i), "values": [hx(v)]} for f, i, v in triples[k:k + 200]]
+            cases.append({"ci": False, "updvar": "unset", "colour": False, "ops": ops, "meta": {"frame": True}})
+        return cases
+
+    def frame_oracle(self, ops, results):
+        """on WELL-FORMED files (a sequence of entries with distinct headers, bodies free of terminator lines) and escaped values:
+        reading returns the body; appending adds exactly one entry at the end; rewriting changes exactly that entry's body"""
+        fails = []
+        for (n_, kv), (_, idx, o) in zip([x for x in ops if x[0] == "frame"], [r for r in results if r[0] == "frame"]):
+            f, i, v = unhx(kv["file"]), unhx(kv["id"]), unhx(kv["value"])
+            ents = parse_entries(f)
+            if b"".join(b"\n[" + a + b"]\n" + b_ + b"\n---\n" for a, b_ in ents) != f or len({a for a, _ in ents}) != len(ents):
+                continue
+            if any(l == b"---" for l in v.split(b"\n")) or any(l == b"---" for _, b_ in ents for l in b_.split(b"\n")):
+                continue
+            if any(l.startswith(b"[") and l.endswith(b"]") for _, b_ in ents for l in b_.split(b"\n")) or any(l.startswith(b"[") and l.endswith(b"]") for l in v.split(b"\n")):
+                continue          # header-like body lines: known finding K2
+            d = dict(ents)
+            inner = i[1:-1]
+            want_prev = "~" if inner not in d else None
+            if want_prev == "~" and o["prev"] != "~":
+                fails.append({"msg": "frame %d: an entry was read for a header the file does not hold" % idx})
+            if inner in d and (o["prev"] == "~" or unhx(o["prev"].split("@")[0]) != d[inner].rstrip(b"\n") and unhx(o["prev"].split("@")[0]) != d[inner]):
+                fails.append({"msg": "frame %d: reading %r returned %s, the entry holds %r" % (idx, i, o["prev"], d[inner])})
+            if o["added"] != "!" and parse_entries(unhx(o["added"])) != ents + [(inner, v)]:
+                fails.append({"msg": "frame %d: appending did not add exactly one entry at the end" % idx})
+            if inner in d and o["updated"] != "!":
+                exp = [(a, v if a == inner else b_) for a, b_ in ents]
+                if parse_entries(unhx(o["updated"])) != exp:
+                    fails.append({"msg": "frame %d: rewriting %r did not change exactly that entry" % (idx, i)})
+        return fails
 
     def gen(self, rng, tier):
         n = 300 if tier == "quick" else 5000
@@ -39,9 +98,11 @@ class C04(Prop):
             p3 += [G.op_setenv(renv[0], renv[1])] + G.run_program(r, prog2, 1)
             ops = p1 + [{"op": "dumpfs"}, {"op": "newprocess"}] + p2 + [{"op": "dumpfs"}, {"op": "newprocess"}] + p3 + [{"op": "dumpfs"}]
             cases.append({"ci": False, "updvar": "unset", "colour": False, "ops": ops, "meta": {"collide": collide}})
-        return cases
+        return cases + self.frame_cases(rng.fork(), tier)
 
     def oracle(self, case, ops, results):
+        if case["meta"].get("frame"):
+            return self.frame_oracle(ops, results)
         obs = [r for r in results if r[0] == "obs"]
         fss = [r for r in results if r[0] == "fs"]
         opl = [o for o in ops if o[0] not in ("init", "dumpfs", "counters")]
@@ -115,6 +176,11 @@ class C04(Prop):
         for n, kv in ops:
             if n == "match":
                 dist["api:" + kv["api"]] += 1
+            if n == "frame":
+                dist["frame_triples"] += 1
+        for r in results:
+            if r[0] == "frame":
+                dist["frame:prev=" + ("none" if r[2]["prev"] == "~" else "some")] += 1
 
 
 PROP = C04()
